@@ -27,5 +27,6 @@ def run(fb, rep, tier, cfg):
     r2g.r2j(fb, rep)
     r2g.r2k(fb, rep)
     r2g.r2m(fb, rep)
+    r2g.r2n(fb, rep)
     e11.r11e(fb, rep)
     e11.r11f(fb, rep)
